@@ -542,18 +542,22 @@ def kernel_effects(repo: str):
                 data = json.load(fh)
             funcs = [_Stub(d) for d in data["funcs"]]
             writes = {k: {int(i): tuple(v) for i, v in w.items()} for k, w in data["writes"].items()}
-            return funcs, _EffStub(writes), True
+            st = _EffStub(writes)
+            st.thresholds = [tuple(x) for x in data["thresholds"]]
+            return funcs, st, True
         except Exception:  # noqa: BLE001 - a broken cache entry is ignored
             pass
     funcs, _ = load_kernels(repo)
     eff = BufferEffects(funcs)
+    eff.thresholds = threshold_comparisons(funcs)
     try:
         os.makedirs(CACHE_DIR, exist_ok=True)
         tmp = path + f".{os.getpid()}.tmp"
         with open(tmp, "w") as fh:
             json.dump({"funcs": [{"name": f.name, "type": f.type, "file": f.file, "line": f.line,
                                   "params": [p.get("name", "") for p in f.params]} for f in funcs],
-                       "writes": {k: {str(i): list(v) for i, v in w.items()} for k, w in eff.writes.items()}}, fh)
+                       "writes": {k: {str(i): list(v) for i, v in w.items()} for k, w in eff.writes.items()},
+                       "thresholds": [list(x) for x in eff.thresholds]}, fh)
         os.replace(tmp, path)
     except OSError:
         pass
@@ -743,6 +747,68 @@ def check_widths(ctx: Context, rule: str, total: int = 40) -> None:
                                               f"kernels (sums of multiplicities) reach {total}, and shifting a {tb[0] if tb else '?'}-bit integer by that much "
                                               f"overflows (undefined behaviour; in practice a wrong or zero denominator)", f"<< in {t}")
     ctx.count("run-time shifts in the native kernels", n_shift)
+
+
+# ---------------------------------------------------------------------------------------------- (b') thresholds
+
+
+def _float_literals(e, decls, depth=0):
+    """Non-zero floating literals an expression depends on (through local const variables)."""
+    out = []
+    for x in walk(e):
+        if x.get("kind") == "FloatingLiteral":
+            try:
+                if float(x.get("value", "0")) != 0.0:
+                    out.append(x.get("value"))
+            except ValueError:
+                out.append(x.get("value"))
+        if x.get("kind") == "DeclRefExpr" and depth < 3:
+            d = decls.get(x.get("referencedDecl", {}).get("id"))
+            if d is not None and "const" in qual(d):
+                out += _float_literals(d, decls, depth + 1)
+    return out
+
+
+def threshold_comparisons(funcs) -> List[Tuple[str, str, int, str]]:
+    """Relational comparisons of a floating value with a non-zero floating constant inside the kernels."""
+    found = []
+    for fd in funcs:
+        decls = {n["id"]: n for n in walk(fd.body) if n.get("kind") == "VarDecl"}
+        for n in walk(fd.body):
+            if n.get("kind") == "BinaryOperator" and n.get("opcode") in ("<", ">", "<=", ">="):
+                l, r = n["inner"][0], n["inner"][1]
+                for a, b in ((l, r), (r, l)):
+                    lits = _float_literals(a, decls)
+                    tb = (b.get("type", {}).get("desugaredQualType") or b.get("type", {}).get("qualType", ""))
+                    if lits and any(t in tb for t in ("float", "double")) and not _float_literals(b, decls):
+                        found.append((os.path.basename(fd.file), fd.name, line_of(n, fd.line), f"{n.get('opcode')} {lits[0]}"))
+                        break
+    return sorted(set(found))
+
+
+def check_thresholds(ctx: Context, rule: str) -> None:
+    """The kernels equal their defining sums for *every* matrix only if their control flow depends on matrix entries
+    through exact tests alone: a comparison of a computed floating value with a non-zero constant (|pivot| > 1e-8)
+    sends all matrices below the threshold down the degenerate path, whatever their scale."""
+    fixture = os.path.join(STUBS, "threshold_fixture.cpp")
+    fx = []
+    for nm in ("with_threshold", "exact_zero"):
+        for o in dump(fixture, nm, STUBS):
+            for f_ in walk(o):
+                if f_.get("kind") == "FunctionDecl" and f_.get("name") == nm:
+                    fx.append(FunctionDecl(f_, fixture))
+    got = {f.name: len(threshold_comparisons([f])) for f in fx}
+    if got != {"with_threshold": 1, "exact_zero": 0}:
+        raise AnalysisError(f"{rule}: the threshold rule does not behave on its fixture ({got})")
+    funcs, eff, cached = kernel_effects(ctx.repo)
+    ctx.count("C++ analysis served from digest cache", cached)
+    found, n_funcs = list(eff.thresholds), len(funcs)
+    ctx.require_floor("C++ kernel function instantiations scanned for floating thresholds", n_funcs, 25)
+    ctx.obligation(rule, "src|no-floating-threshold-in-kernels", not found, functions=n_funcs)
+    for (fname, fn_name, ln, what) in found:
+        ctx.violation(rule, f"src/{fname}:{fn_name}|floating-threshold", os.path.join(ctx.repo, "src", fname), ln,
+                      f"{fn_name} compares a computed floating value with the constant `{what}`: every input below that absolute threshold takes the "
+                      f"degenerate path, so the kernel differs from its defining sum for small-scaled (but perfectly regular) matrices", what)
 
 
 # ---------------------------------------------------------------------------------------------- (c) OpenMP loops
